@@ -309,6 +309,9 @@ func evaluate(sc *scen.Scenario, events []Event) error {
 	verdict, err := judge(sc, events, res, runErr)
 	var cls []string
 	nt := false
+	if sc.ServerClockOffset > 0 {
+		cls = append(cls, "server-clock-after-2038")
+	}
 	for _, ev := range events {
 		cls = append(cls, "event:"+ev.Kind)
 		if ev.Run >= 6 {
